@@ -93,8 +93,8 @@ Definition ex_pubs : list bop :=
    BPublish 102 ex_lookup 6 ex_pub 2 [("exclude", VList [vid 99])] "hist.topic" [vnat 2] [];
    BPublish 103 ex_lookup 7 ex_pub 3 [] "hist.topic" [vnat 3] [];
    BRemove 104 14;
-   BUnsubscribe 104 13 9 1;
-   BPublish 105 ex_lookup 8 ex_pub 4 [] "hist.topic" [vnat 4] []].
+   BUnsubscribe 105 13 9 1;
+   BPublish 106 ex_lookup 8 ex_pub 4 [] "hist.topic" [vnat 4] []].
 
 (** the id supply of the example is the threaded counter *)
 Lemma ex_threaded : threaded ex_cfg ex_b 100 ex_pubs.
@@ -114,11 +114,11 @@ Proof. split; vm_compute; discriminate. Qed.
 
 (** three stored, one restricted, limit 2: the ring wrapped and all
     subscribers left in between *)
-Lemma ex_hist_ref : map h_pub (hist_ref ex_cfg 1 "hist.topic" MExact ex_pubs) = [101; 104; 106].
+Lemma ex_hist_ref : map h_pub (hist_ref ex_cfg 1 "hist.topic" MExact ex_pubs) = [101; 104; 107].
 Proof. vm_compute. reflexivity. Qed.
 
 Lemma ex_hist_result :
-  option_map (fun st => map h_pub (hs_entries st)) (nget (b_hist (brun ex_cfg ex_b ex_pubs)) 1) = Some [104; 106].
+  option_map (fun st => map h_pub (hs_entries st)) (nget (b_hist (brun ex_cfg ex_b ex_pubs)) 1) = Some [104; 107].
 Proof. vm_compute. reflexivity. Qed.
 
 Lemma ex_hist_no_subscribers :
@@ -186,3 +186,26 @@ Proof. repeat split. Qed.
 (** why [1 <= limit] is needed: with limit 0 the ring keeps one entry *)
 Lemma ex_limit0 : forall e, hs_entries (hist_push (mkHStore 0 []) e) = [e].
 Proof. reflexivity. Qed.
+
+(** session end: 10 holds "a.b" (shared with 11) and "solo" (alone); 20 watches
+    both meta topics *)
+Definition ex_lb : broker :=
+  brun ex_cfg_nodisclose empty_broker
+       [BSubscribe 0 10 1 [] "a.b"; BSubscribe 0 11 1 [] "a.b"; BSubscribe 0 10 2 [] "solo";
+        BSubscribe 0 20 1 [] t_sub_on_unsubscribe; BSubscribe 0 20 2 [] t_sub_on_delete].
+
+Lemma ex_lb_wf : broker_wf ex_lb /\ nget (b_sess ex_lb) 10 = Some [1; 2].
+Proof. split; [|vm_compute; reflexivity]. apply brun_wf; [apply empty_wf|vm_compute; discriminate]. Qed.
+
+Lemma ex_lb_flags : sole_no_hist ex_lb 10 1 = false /\ sole_no_hist ex_lb 10 2 = true.
+Proof. split; vm_compute; reflexivity. Qed.
+
+(** on_unsubscribe for both, on_delete only for the one that went away,
+    consecutive publication ids, all to the watcher *)
+Lemma ex_lb_leave :
+  snd (broker_remove_session ex_lb 100 10) =
+  [(20, REvent 3 101 [] [vid 10; vid 1] []);
+   (20, REvent 3 102 [] [vid 10; vid 2] []);
+   (20, REvent 4 103 [] [vid 10; vid 2] [])] /\
+  snd (fst (broker_remove_session ex_lb 100 10)) = 103.
+Proof. split; vm_compute; reflexivity. Qed.
